@@ -160,13 +160,22 @@ func hub04Case(w *vlog.W, a *wargs, id int, rng *rand.Rand) {
 				}
 				ib := mkIB(p, idx, typ)
 				tid := fmt.Sprintf("%s-%s-%d", p.from, p.to, idx)
-				e := ev{desc: fmt.Sprintf("receipt(%s, %d sigs) %s #%d", typ, nsig, k, idx), id: tid, pair: k}
-				if nsig >= 2 && idx == lrcp[k]+1 && stOf(tid) == model.StBegin && kind < 2 {
+				// the validators' signatures are over this IBTP and its status: a relayer that keeps the proof of a
+				// receipt of another type (say the failure receipt the validators really signed) and rewrites the
+				// type field presents signatures that do not cover what it sends
+				signedIB, forged := ib, ""
+				if rng.Intn(6) == 0 {
+					other := mkIB(p, idx, []pb.IBTP_Type{pb.IBTP_RECEIPT_FAILURE, pb.IBTP_RECEIPT_ROLLBACK, pb.IBTP_RECEIPT_SUCCESS}[kind])
+					signedIB, forged = other, fmt.Sprintf(", signatures over a %s", other.Type)
+					shape["receipt-type-rewritten"] = true
+				}
+				e := ev{desc: fmt.Sprintf("receipt(%s, %d sigs%s) %s #%d", typ, nsig, forged, k, idx), id: tid, pair: k}
+				if forged == "" && nsig >= 2 && idx == lrcp[k]+1 && stOf(tid) == model.StBegin && kind < 2 {
 					e.accept, e.next, e.final = true, []int{model.StSuccess, model.StFailure}[kind], true
 					lrcp[k] = idx
 					lst[tid] = e.next
 				}
-				blk = append(blk, world.IBTPTx(pier, ib, signed(ib, st, nsig)))
+				blk = append(blk, world.IBTPTx(pier, ib, signed(signedIB, st, nsig)))
 				evs = append(evs, e)
 			default: // notice: the request again, Extra says what happened on the destination hub
 				idx := lrcp[k] + 1
